@@ -107,7 +107,20 @@ func isDashRune(r rune) bool {
 // everything up to and including the next non-blank line: the property exempts them because a
 // hyphen before a line break joins two word halves.
 func frozenLines(ls []tline) []bool {
+	hard, soft := hyphenZones(ls)
 	fr := make([]bool, len(ls))
+	for i := range fr {
+		fr[i] = hard[i] || soft[i]
+	}
+	return fr
+}
+
+// hyphenZones: hard = lines that end in a dash (exempt as a whole, the statement's wording); soft = the lines after
+// it up to and including the next non-blank line (the continuation). On a continuation line only changes in front
+// of its first word are excluded (decoration, a blank line inserted before it: they would end up inside the joined
+// word); re-casing, blanks, tabs and line terminators are applied there like anywhere else.
+func hyphenZones(ls []tline) (hard, soft []bool) {
+	hard, soft = make([]bool, len(ls)), make([]bool, len(ls))
 	for i, l := range ls {
 		t := strings.TrimRightFunc(l.s, unicode.IsSpace)
 		if t == "" {
@@ -117,15 +130,15 @@ func frozenLines(ls []tline) []bool {
 		if !isDashRune(rs[len(rs)-1]) {
 			continue
 		}
-		fr[i] = true
+		hard[i] = true
 		for j := i + 1; j < len(ls); j++ {
-			fr[j] = true
+			soft[j] = true
 			if strings.TrimSpace(ls[j].s) != "" {
 				break
 			}
 		}
 	}
-	return fr
+	return hard, soft
 }
 
 func recase(s string, mode string) string {
@@ -161,6 +174,7 @@ func applyXforms(ls []tline, ts []xform) ([]tline, map[string]int, int) {
 			break
 		}
 		fr := frozenLines(ls)
+		hard, _ := hyphenZones(ls)
 		sel := make([]bool, len(ls))
 		if x.All {
 			for i := range sel {
@@ -192,7 +206,7 @@ func applyXforms(ls []tline, ts []xform) ([]tline, map[string]int, int) {
 			if !sel[i] {
 				continue
 			}
-			if fr[i] {
+			if hard[i] || (fr[i] && (x.Kind == "decorate" || x.Kind == "indent" && strings.TrimSpace(ls[i].s) == "")) {
 				frozenSkips++
 				continue
 			}
